@@ -19,8 +19,11 @@
 (*                                                                                            *)
 (* PART 1 is the contract: a SET of acceptable results (the documentation leaves open what an *)
 (* empty list element counts for, whether a scheme is case-normalised, ...).  PART 2 is the   *)
-(* code, string operation by string operation, in variants: "pinned" (the tree as pinned),    *)
-(* "fixed" (fixes/X01-*.diff applied) and hand-broken ones that the invariants must reject.    *)
+(* code, string operation by string operation, in variants: "fixed" (the tree since repo      *)
+(* commit 2d7315b = fixes/X01-*.diff: plain comma split), "pinned" (the tree before it: RFC   *)
+(* 9110 quoted-string list parsing, which lets ONE quote sent by the client merge the values  *)
+(* the trusted proxies appended -- must violate ClientNeverSelected) and hand-broken ones     *)
+(* ("left", "nozero", "noshort", "origlate", "nobracket", "noport") the invariants must reject.*)
 EXTENDS Bytes, FiniteSets
 
 COMMA == 44
@@ -104,6 +107,12 @@ AccSel(n, h) ==
   ELSE LET items == Pieces(h.v) IN
        {IF items[j] = <<>> THEN NoSel ELSE Sel(items[j]) : j \in AccIdx(n, items)}
        \cup (IF n > NonEmptyCount(items) THEN {NoSel} ELSE {})
+
+\* the plain reading (every element counts); always one of AccSel
+PrimarySel(n, h) ==
+  IF n = 0 \/ ~h.p \/ h.v = <<>> THEN NoSel
+  ELSE LET items == Pieces(h.v) IN
+       IF Len(items) < n \/ items[Len(items) - n + 1] = <<>> THEN NoSel ELSE Sel(items[Len(items) - n + 1])
 
 (* ClientNeverSelected.  [cls] "It is a security issue to trust values that came from the     *)
 (* client rather than a proxy."; [mod] "Since incoming headers can be faked, you must set how *)
@@ -189,11 +198,13 @@ HostGroupClause(cfg, env, hd, out) ==
   ELSE LET SHs == AccSel(cfg.host, hd.host)
            SPs == AccSel(cfg.port, hd.port)
        IN IF \E sh \in SHs, sp \in SPs : HostGroupFail(sh, sp, env, out) = "ok" THEN "ok"
-          ELSE LET sh == CHOOSE s \in SHs : TRUE
-                   sp == CHOOSE s \in SPs : TRUE
+          ELSE \* name the failure under the plain reading (every element counts)
+               LET sh == PrimarySel(cfg.host, hd.host)
+                   sp == PrimarySel(cfg.port, hd.port)
                    f  == HostGroupFail(sh, sp, env, out)
                IN IF f = "Untouched" THEN (IF ~sh.sel THEN SelName(cfg.host, hd.host) ELSE SelName(cfg.port, hd.port))
                   ELSE IF HasQuote(hd.host.v) \/ HasQuote(hd.port.v) THEN "ClientNeverSelected"
+                  ELSE IF f = "ok" THEN "NthFromRight"
                   ELSE f
 
 (* OrigSaved.  [cls] "The original values of the headers are stored in the WSGI environ as    *)
@@ -255,7 +266,8 @@ Unquote(x) == IF Len(x) >= 2 /\ x[1] = DQ /\ x[Len(x)] = DQ THEN SubSeq(x, 2, Le
 ParseListHeader(text) == LET ps == PHL(text, <<>>, FALSE, FALSE) IN [i \in 1..Len(ps) |-> Unquote(Strip(ps[i]))]
 
 \* ProxyFix._get_real_value; <<>> stands for None / an empty string (both are falsy for the caller)
-ImplValues(variant, text) == IF variant = "fixed" THEN Pieces(text) ELSE ParseListHeader(text)
+\* "pinned": values = parse_list_header(value); every other variant: [item.strip() for item in value.split(",")]
+ImplValues(variant, text) == IF variant = "pinned" THEN ParseListHeader(text) ELSE Pieces(text)
 RealValue(variant, n, h) ==
   IF (n = 0 /\ variant # "nozero") \/ ~h.p \/ h.v = <<>> THEN <<>>
   ELSE LET vs == ImplValues(variant, h.v) IN
